@@ -23,6 +23,10 @@ def oracle(r):
         return (f'server did not shut down normally: {r["outcome"]} {r.get("exit_error")}', None)
     if r.get('gather_alive_after_calls') is False:
         return ('the gather thread was dead after the calls', None)
+    lw = r.get('lost_wakeup')
+    if lw:
+        return (f'callers {lw["waiting"]} were left waiting for a slot although the backlog was {lw["backlog"]} < capacity '
+                f'{cfg["capacity"]} and no notification was under way (a pending request was not served)', None)
     fail = {int(k): v for k, v in cfg['fail'].items()}
     for i, c in enumerate(cfg['callers']):
         o = r['outcomes'][i]
